@@ -124,7 +124,7 @@ func runC20(c *an.Ctx) {
 	c.Min("R20.11", 3)
 	c.Min("R20.1", 55)
 	c.Min("R20.2", 100)
-	c.Min("R20.3", 4)
+	c.Min("R20.3", 3) // (one of the four tested paths of the pinned tree disappears when its nil test moves into a helper: RZF-7)
 	c.Min("R20.4", 6)
 	c.Min("R20.5", 1)
 	c.Min("R20.6", 250)
@@ -2059,6 +2059,66 @@ func r2015(c *an.Ctx) {
 	c.SawFunc(name)
 	n := 0
 	for _, ic := range interceptorBodies(fn, "InterceptAfter") {
+		// the reset as a helper of the package (`clearReceipt(newVal.Audience)`): judged at its call site, the helper
+		// itself may only add a nil test of what it was given
+		an.Instrs(ic.fn, func(in ssa.Instruction) {
+			hc, ok := in.(*ssa.Call)
+			if !ok {
+				return
+			}
+			g := hc.Call.StaticCallee()
+			if g == nil || g.Pkg != ic.fn.Pkg || len(g.Blocks) == 0 {
+				return
+			}
+			resets, plain := false, true
+			an.Instrs(g, func(in2 ssa.Instruction) {
+				st, isSt := in2.(*ssa.Store)
+				if !isSt {
+					return
+				}
+				if _, _, fld, isF := an.FieldOf(st.Addr); !isF || fld != "Receipt" {
+					return
+				}
+				resets = true
+				for _, e := range an.GuardingEdges(st) {
+					x, _, isNil := an.NilTest(e.If.Cond)
+					if _, isP := x.(*ssa.Parameter); !isNil || !isP {
+						plain = false
+					}
+				}
+			})
+			if !resets {
+				return
+			}
+			n++
+			extra := ""
+			if !plain {
+				extra = c.Prog.Rel(g.Pos())
+			}
+			flag := false
+			for _, e := range an.GuardingEdges(hc) {
+				cond := e.If.Cond
+				for {
+					if u, isNot := cond.(*ssa.UnOp); isNot && u.Op == token.NOT {
+						cond = u.X
+						continue
+					}
+					break
+				}
+				if _, _, f, isF := an.FieldOf(cond); isF && f == "resetReceipt" {
+					flag = true
+					continue
+				}
+				if x, _, isNil := an.NilTest(e.If.Cond); isNil {
+					if _, _, f, isF := an.FieldOf(x); isF && f == "Audience" {
+						continue
+					}
+				}
+				extra = c.Prog.Rel(e.If.Pos())
+			}
+			c.Check(flag && extra == "", rule, name+"|the receipt is reset whenever the write asks for it", hc.Pos(), "guarded by resetReceipt only",
+				"the reset of the receipt depends on a further condition (at "+extra+"), e.g. a comparison of the old and new version made before the new version is minted: an update that leaves the version field alone (a masked update of the body, a read-modify-write) keeps the old receipt, so the new version is stored already ACCEPTED and acknowledging it is refused")
+		})
 		an.Instrs(ic.fn, func(in ssa.Instruction) {
 			st, ok := in.(*ssa.Store)
 			if !ok {
